@@ -5,7 +5,7 @@ from .. import gen
 from . import common as C
 
 
-class C01(Prop):
+class C01(C.ProgramDiff):
     id = 'C01'
     title = "Compiled clauses compute exactly Prolog's answers, in order"
     technique = 'property-based differential testing against a reference SLD interpreter (Hypothesis, byte-genome program generator)'
@@ -18,88 +18,8 @@ class C01(Prop):
             'distinct = SHA-1 of program text + query.')
     assumptions = ['CPython 3.12 of /venv', 'reference interpreter R (validated by conformance corpus and second engine)',
                    'STO unifications and calls of non-callable terms are discarded as unspecified']
-    genome = {'quick': 400, 'thorough': 400}
     cases = {'quick': 2400, 'thorough': 40000}
     cfg = gen.with_cfg(control=frozenset())
-    nqueries = 3
-
-    def selftest(self, tier):
-        return C.oracle_selftest(tier)
-
-    def decode(self, src):
-        preds, clauses = gen.gen_program(src, self.cfg)
-        queries = [gen.gen_query(src, preds, self.cfg, clauses) for _ in range(self.nqueries)]
-        text = gen.program_text(clauses, src)
-        return {'text': text, 'clauses': clauses, 'queries': queries}
-
-    def sample_view(self, case):
-        return {'text': case['text'], 'queries': [C.show(tt(q)) for q in case['queries']]}
-
-    def case_key(self, case):
-        return case['text'] + '\x00' + repr(case['queries'])
-
-    def shrink_candidates(self, case):
-        return C.shrink_program_case(case, C.plain_text)
-
-    def ref_run(self, clauses, q):
-        return C.run_ref(clauses, q)
-
-    def decide(self, case):
-        clauses = tt(case['clauses'])
-        queries = tt(case['queries'])
-        comp = C.compile_case(case['text'])
-        feats = C.clause_features(clauses)
-        if comp[0] == 'exc':
-            return FAIL(comp[1], {'text': case['text'], 'error': comp[2]})
-        code = comp[1]
-        classes = set()
-        nontrivial = False
-        decided = 0
-        for q in queries:
-            st, ref, it = self.ref_run(clauses, q)
-            if st == 'unspec':
-                classes.add('query-unspecified')
-                continue
-            if st == 'findall-readings-differ':
-                classes.add('query-findall-readings-differ')
-                continue
-            if st == 'budget' and not ref:
-                classes.add('unbounded-no-answer')
-                continue
-            r = C.impl_answers(code, q, st, ref, it.steps)
-            decided += 1
-            if r[0] == 'exc':
-                return FAIL('exception:' + r[1], {'text': case['text'], 'query': C.show(q), 'error': r[2],
-                                                   'expected': C.answers_view(ref)}, classes)
-            sig = C.compare_answers(st, ref, r[1], r[2])
-            if sig:
-                return FAIL(sig, {'text': case['text'], 'query': C.show(q), 'expected': C.answers_view(ref),
-                                  'observed': C.answers_view(r[2]), 'reference_status': st}, classes)
-            classes.add('answers:%s' % ('0' if not ref else '1' if len(ref) == 1 else 'many'))
-            if st != 'done':
-                classes.add('unbounded-prefix')
-            nt = self.nontrivial(st, ref, it, feats, classes)
-            nontrivial = nontrivial or nt
-        if decided == 0:
-            return DISCARD('all queries unspecified or unbounded')
-        classes |= {'feat:' + f for f in feats}
-        return OK(nontrivial, sorted(classes))
-
-    def nontrivial(self, st, ref, it, feats, classes):
-        if st != 'done' or it.steps < 3:
-            return False
-        ok = False
-        if len(ref) >= 2:
-            ok = True
-        if it.maxdepth_seen >= 2:
-            classes.add('recursion-depth>=2')
-            ok = True
-        if C.has_aliasing(ref):
-            classes.add('aliasing-in-answer')
-            ok = True
-        if feats & {'repeated-head-var', 'goal-then-fail', 'arity0'}:
-            ok = True
-        return ok
 
 
 PROP = C01()
